@@ -624,6 +624,38 @@ func inputRequest(r *gen.Rand) []byte {
 
 // ---------------------------------------------------------------------------------------------
 
+// sigK1 is the one signature of the known root cause "the flash cookie on the wire is the raw
+// MessagePack encoding": control bytes, ';', spaces at the ends, CR/LF replaced by the header
+// scrubbing - whatever byte of the encoding shows it. The concrete class goes into the detail.
+const sigK1 = "flash|not-delivered|cookie-is-raw-msgpack"
+
+func k1(e *ev.Env, c *ev.Case, detail map[string]any, class, what string) {
+	d := map[string]any{"class": class}
+	for k, v := range detail {
+		d[k] = v
+	}
+	e.Stat("k1_"+class, 1)
+	e.Violation(c, sigK1, what, d)
+}
+
+// rawBytesClass names what in the bytes of an encoding keeps it from travelling as a cookie value
+// ("" when nothing does).
+func rawBytesClass(enc []byte) string {
+	switch {
+	case bytes.IndexByte(enc, '\n') >= 0 || bytes.IndexByte(enc, '\r') >= 0:
+		return "line-break-bytes" // replaced by SP by the header scrubbing (cut by a client before that fix)
+	case bytes.IndexByte(enc, 0) >= 0:
+		return "nul-byte"
+	case hasCTL(enc):
+		return "control-bytes"
+	case bytes.IndexByte(enc, ';') >= 0:
+		return "cut-at-semicolon"
+	case !bytes.Equal(serverView(enc), enc):
+		return "trimmed-by-cookie-syntax"
+	}
+	return ""
+}
+
 func flashScript(e *ev.Env, c *ev.Case, spec *flashSpec, reqA []byte) {
 	want := expected(spec)
 	var look []string
@@ -668,6 +700,11 @@ func flashScript(e *ev.Env, c *ev.Case, spec *flashSpec, reqA []byte) {
 	if attached > 0 {
 		if raw, ok := rawFlashValue(out1); !ok {
 			e.Violation(c, "flash|cookie-not-set", "no flash cookie in the response of the redirecting handler although "+itoa(attached)+" items were attached", detail)
+		} else if enc := mpFlash(wantList(want, wantOld)); bytes.IndexByte(enc, '\n') >= 0 || bytes.IndexByte(enc, '\r') >= 0 {
+			// CR/LF bytes of the encoding are replaced by SP on the way into the header: judged
+			// as part of the raw-MessagePack finding below, not here
+			e.Stat("issued_cookie_has_scrubbed_bytes", 1)
+			_ = raw
 		} else if got, wf := mpWellFormed(raw); !wf {
 			detail["issued_cookie"] = show(raw)
 			e.Violation(c, "flash|issued-cookie-differs|not-a-well-formed-encoding", "the issued cookie is not a well-formed encoding of a message list", detail)
@@ -683,45 +720,63 @@ func flashScript(e *ev.Env, c *ev.Case, spec *flashSpec, reqA []byte) {
 	strictOK := false
 	var lenient []byte
 	haveLenient := false
+	client := "strict"
+	enc := mpFlash(wantList(want, wantOld))
 	rs1, perr := strict.ParseAll(out1, nil)
 	switch {
 	case perr != nil:
 		site := headerAt(out1, perr.Off)
-		if strings.HasPrefix(site, "set-cookie") || site == "injected-header-line" {
-			// class from the bytes of the encoding (the order of old-input entries, and with it
-			// the first offending byte, changes from run to run)
-			cls := perr.Class
-			switch byteClass(string(mpFlash(wantList(want, wantOld)))) {
-			case "CRLF", "LF", "CR":
-				cls = "header-value-crlf"
-			case "NUL":
-				cls = "header-value-nul"
-			case "other-CTL":
-				cls = "header-value-ctl"
+		if name, after := injectedLine(out1); name != "" {
+			// an attacker-named header line: its own signature
+			detail["header"] = name
+			e.Violation(c, "flash|injected-header-line|after:"+after, "a header line named by message bytes appears in the response of the redirecting handler: "+name, detail)
+		} else if strings.HasPrefix(site, "set-cookie") || rawBytesClass(enc) != "" {
+			cls := rawBytesClass(enc)
+			if cls == "" {
+				cls = perr.Class
 			}
-			e.Violation(c, "flash|set-cookie-ill-formed|"+cls, "response of the redirecting handler is rejected by a strict client: "+perr.Error(), detail)
+			k1(e, c, detail, cls, "response of the redirecting handler is rejected by a strict client: "+perr.Error())
 		} else {
 			e.Violation(c, "flash|response-malformed|"+perr.Class, "response of the redirecting handler is rejected by a strict client: "+perr.Error(), detail)
 		}
+		lenient, haveLenient = lenientFlash(out1)
+		client = "lenient"
 	case len(rs1) != 1 || rs1[0].Status != 302 || rs1[0].Get("Location") != "/b":
 		e.Violation(c, "flash|redirect-response", "handler A did not answer 302 to /b", detail)
 		return
 	default:
+		if name, after := injectedLine(rs1[0].Raw); name != "" {
+			detail["header"] = name
+			e.Violation(c, "flash|injected-header-line|after:"+after, "a header line named by message bytes appears in the response of the redirecting handler: "+name, detail)
+		}
 		lines := flashLines(rs1[0])
 		switch {
 		case attached == 0 && len(lines) == 0:
 		case len(lines) != 1:
 			e.Violation(c, "flash|cookie-count", itoa(len(lines))+" flash cookies set for "+itoa(attached)+" attached items", detail)
 		default:
-			if bad := jar.Store(lines[0], serverNow(rs1[0])); bad != "" {
-				e.Violation(c, "flash|set-cookie-ill-formed|"+bad, "a conforming client does not accept the Set-Cookie line (RFC 6265 §4.1.1): the messages are not presented", detail)
-			} else {
+			switch bad := jar.Store(lines[0], serverNow(rs1[0])); bad {
+			case "":
 				strictOK = true
 				e.Stat("strict_client_stored_cookie", 1)
+			case "value-not-cookie-octets":
+				// RFC 6265 §4.1.1 (SHOULD) is not met, but a §5.2 user agent stores the cookie:
+				// counted, and the script goes on with such a client (value up to the first ';',
+				// surrounding white space removed)
+				e.Stat("set_cookie_value_not_cookie_octets", 1)
+				client = "ua-5.2"
+				v := strings.TrimPrefix(lines[0], fiber.FlashCookieName+"=")
+				if i := strings.IndexByte(v, ';'); i >= 0 {
+					v = v[:i]
+				}
+				lenient, haveLenient = []byte(strings.Trim(v, " \t")), true
+			default:
+				k1(e, c, detail, "set-cookie-"+bad, "a user agent does not accept the Set-Cookie line: the messages are not presented")
+				lenient, haveLenient = lenientFlash(out1)
+				client = "lenient"
 			}
 		}
 	}
-	lenient, haveLenient = lenientFlash(out1)
 	if attached > 0 && !strictOK && !haveLenient {
 		e.Stat("no_cookie_even_for_lenient_client", 1)
 	}
@@ -729,15 +784,13 @@ func flashScript(e *ev.Env, c *ev.Case, spec *flashSpec, reqA []byte) {
 	// ---- (2) handler B with the cookie ---------------------------------------------
 	var cookie []byte
 	present := false
-	client := "strict"
 	if strictOK {
 		if v, ok := jar.Get(fiber.FlashCookieName); ok {
 			cookie, present = []byte(v), true
 		}
 	} else if haveLenient {
-		client = "lenient"
 		cookie, present = lenient, true
-		e.Stat("lenient_continuations", 1)
+		e.Stat("continuations_"+client, 1)
 	}
 	detail["client"] = client
 	detail["cookie_presented"] = show(cookie)
@@ -759,28 +812,25 @@ func flashScript(e *ev.Env, c *ev.Case, spec *flashSpec, reqA []byte) {
 			if hasCTL(cookie) {
 				e.Stat("refused_cookie_has_ctl", 1)
 			}
-			e.Violation(c, "flash|request-refused-by-server", "the server answers 400 to the request that presents the cookie it issued itself", detail)
+			if hasCTL(cookie) || rawBytesClass(enc) != "" {
+				k1(e, c, detail, "request-refused-by-server", "the server answers 400 to the request that presents the cookie it issued itself")
+			} else {
+				e.Violation(c, "flash|request-refused-by-server", "the server answers 400 to the request that presents the cookie it issued itself (no control byte in it)", detail)
+			}
 		case len(rs2) != 1 || !rep.ran:
 			e.Violation(c, "flash|follow-up-not-served", "handler B did not run for the follow-up request", detail)
 			return
 		default:
 			what, why := diffMessages(spec, want, wantOld, &rep)
 			if what != "" {
-				// name the cause from the bytes of the encoding when they explain it
-				enc := mpFlash(wantList(want, wantOld))
-				switch {
-				case client == "strict":
-				case bytes.IndexByte(enc, '\n') >= 0:
-					what = "cookie-cut-at-line-break"
-				case bytes.IndexByte(enc, ';') >= 0:
-					what = "cookie-cut-at-semicolon"
-				case hasCTL(enc):
-					what = "cookie-has-control-bytes"
-				case !bytes.Equal(serverView(enc), enc):
-					what = "cookie-trimmed-by-cookie-syntax"
-				}
+				// the bytes of the encoding explain it: the known raw-MessagePack finding
 				detail["why"] = why
-				e.Violation(c, "flash|messages-differ|"+what, "handler B does not see what was attached ("+client+" client): "+why, detail)
+				if cls := rawBytesClass(enc); cls != "" && client != "strict" {
+					k1(e, c, detail, "messages-differ-"+cls, "handler B does not see what was attached ("+client+" client): "+why)
+					what = "raw-bytes"
+				} else {
+					e.Violation(c, "flash|messages-differ|"+what, "handler B does not see what was attached ("+client+" client): "+why, detail)
+				}
 			} else if attached > 0 {
 				e.Stat("delivered_intact_"+client, 1)
 			}
@@ -1015,10 +1065,13 @@ func hostileCookie(e *ev.Env, c *ev.Case, kind string, cookie []byte) {
 		e.Sample("hostile-"+kind, map[string]any{"cookie": show(cookie), "messages_seen": rep.nMsg, "old_inputs_seen": rep.nOld})
 		e.Nontrivial("hostile", kind, itoa(len(view)/4), itoa(min(rep.nMsg, 99)), itoa(min(rep.nOld, 99)))
 		if n := rep.nMsg + rep.nOld; n > 0 {
-			cls := "lenient-decoding-of-nonconforming-encoding"
-			if kind == "invalid" {
-				cls = "decode-error-keeps-partial-list"
+			if kind != "invalid" {
+				// valid MessagePack that is not an encoding fiber writes (missing / extra /
+				// duplicate fields): the statement does not clearly forbid reading it; counted
+				e.Stat("hostile_nonconforming_yields_messages", 1)
+				return
 			}
+			cls := "decode-error-keeps-partial-list"
 			detail["messages_seen"] = n
 			if len(rep.messages) > 0 {
 				detail["first_message"] = msgKey(rep.messages[0].Key, rep.messages[0].Value, rep.messages[0].Level)
